@@ -106,6 +106,8 @@ struct State {
     const void* main_mutex = nullptr;  // the lock that protects the wrapped object
 };
 inline State* G;
+template<class W>
+inline W* G_aux = nullptr;  ///< second wrapper of the same type (handle-overwrite life cycle)
 
 inline std::chrono::microseconds dur_of(int c)
 {
@@ -258,12 +260,33 @@ inline void shared_section(const Cell& c, int hold)
         gsim::fail("unstable", "value under a shared access changed from %ld to %ld", v, v2);
 }
 
-/// life cycle of a non-null handle H obtained with `before` held-set
-template<class H>
-void excl_lifecycle(H& h, const HeldSnap& before, gsim::Op op)
+/// life cycle of a non-null handle H obtained with `before` held-set.
+/// `aux` returns an exclusive handle of a second wrapper of the same type
+/// (always acquired after the wrapper under test, so no lock-order cycle).
+template<class H, class Aux>
+void excl_lifecycle(H& h, const HeldSnap& before, gsim::Op op, Aux&& aux)
 {
-    int life = op.b & 3;
-    if (life == 2) {
+    int life = op.b % 5;
+    if (life == 4) {
+        // a holding handle is overwritten by move-assignment from another handle:
+        // the lock it held must be released at that moment (not when the source
+        // of the assignment dies)
+        excl_section(*h, op.a);
+        H hb = aux();
+        h = std::move(hb);
+        if (G->oracle_handle || G->oracle_excl) {
+            gsim::Oracle o;
+            int want = before.ex + (G->enabled ? 1 : 0);
+            if (gsim::held_exclusive() != want)
+                gsim::fail("overwritten_handle_keeps_lock", "after move-assigning another handle "
+                           "over a handle that held the lock the thread holds %d exclusive locks, "
+                           "expected %d (the overwritten handle's lock was not released)",
+                           gsim::held_exclusive(), want);
+        }
+        for (int y = 0; y < 2; y++) gsim::yield();
+        h.unlock();
+        check_released(before, "unlock() of a handle that was overwritten by move-assignment");
+    } else if (life == 2) {
         H h2(std::move(h));
         excl_section(*h2, op.a);
         // h2 destroyed first, then (moved-from) h
@@ -292,13 +315,37 @@ void excl_lifecycle(H& h, const HeldSnap& before, gsim::Op op)
         excl_section(*h, op.a);
     }
 }
-template<class H>
-void shared_lifecycle(H& h, const HeldSnap& before, gsim::Op op)
+template<class H, class Aux>
+void shared_lifecycle(H& h, const HeldSnap& before, gsim::Op op, Aux&& aux)
 {
-    int life = op.b & 3;
-    if (life == 2) {
+    int life = op.b % 5;
+    if (life == 4) {
+        shared_section(*h, op.a);
+        H hb = aux();
+        h = std::move(hb);
+        if (G->oracle_handle || G->oracle_excl) {
+            gsim::Oracle o;
+            int tot = gsim::held_exclusive() + gsim::held_shared();
+            int want = before.ex + before.sh + (G->enabled ? 1 : 0);
+            if (tot != want)
+                gsim::fail("overwritten_handle_keeps_lock", "after move-assigning another shared "
+                           "handle over a handle that held the lock the thread holds %d locks, "
+                           "expected %d", tot, want);
+        }
+        gsim::yield();
+        h.unlock();
+        check_released(before, "unlock() of a shared handle overwritten by move-assignment");
+    } else if (life == 2) {
         H h2(std::move(h));
         shared_section(*h2, op.a);
+    } else if (life == 3) {
+        shared_section(*h, op.a);
+        H h2(std::move(h));
+        h = std::move(h2);
+        h.unlock();
+        if (G->oracle_handle && h)
+            gsim::fail("unlock_not_null", "shared handle still tests true after unlock()");
+        check_released(before, "unlock() of a move-assigned shared handle");
     } else if (life == 1) {
         shared_section(*h, op.a);
         h.unlock();
@@ -464,7 +511,7 @@ struct Exec {
                     {
                         auto h = w.lock();
                         check_acquired(b, (bool)h, false, false, "lock()");
-                        if (h) excl_lifecycle(h, b, op);
+                        if (h) excl_lifecycle(h, b, op, [&] { return G_aux<W>->lock(); });
                     }
                     check_released(b, "destruction of an exclusive handle");
                 }
@@ -478,7 +525,7 @@ struct Exec {
                             return w.try_lock();
                         }();
                         check_acquired(b, (bool)h, false, false, "try_lock()");
-                        if (h) excl_lifecycle(h, b, op);
+                        if (h) excl_lifecycle(h, b, op, [&] { return G_aux<W>->lock(); });
                         else gsim::probe("try_lock.null");
                     }
                     check_released(b, "destruction of an exclusive handle");
@@ -496,7 +543,7 @@ struct Exec {
                         }();
                         check_timed(t0, d, false, "try_lock_for");
                         check_acquired(b, (bool)h, false, false, "try_lock_for()");
-                        if (h) excl_lifecycle(h, b, op);
+                        if (h) excl_lifecycle(h, b, op, [&] { return G_aux<W>->lock(); });
                         else gsim::probe("try_lock_for.null");
                     }
                     check_released(b, "destruction of an exclusive handle");
@@ -514,7 +561,7 @@ struct Exec {
                         }();
                         check_timed(t0, d, true, "try_lock_until");
                         check_acquired(b, (bool)h, false, false, "try_lock_until()");
-                        if (h) excl_lifecycle(h, b, op);
+                        if (h) excl_lifecycle(h, b, op, [&] { return G_aux<W>->lock(); });
                         else gsim::probe("try_lock_until.null");
                     }
                     check_released(b, "destruction of an exclusive handle");
@@ -526,7 +573,7 @@ struct Exec {
                     {
                         auto h = cw.lock_shared();
                         check_acquired(b, (bool)h, true, sharedm, "lock_shared()");
-                        if (h) shared_lifecycle(h, b, op);
+                        if (h) shared_lifecycle(h, b, op, [&] { return static_cast<const W*>(G_aux<W>)->lock_shared(); });
                     }
                     check_released(b, "destruction of a shared handle");
                 }
@@ -537,7 +584,7 @@ struct Exec {
                     {
                         auto h = cw.lock();
                         check_acquired(b, (bool)h, true, sharedm, "const lock()");
-                        if (h) shared_lifecycle(h, b, op);
+                        if (h) shared_lifecycle(h, b, op, [&] { return static_cast<const W*>(G_aux<W>)->lock_shared(); });
                     }
                     check_released(b, "destruction of a shared handle");
                 }
@@ -551,7 +598,7 @@ struct Exec {
                             return cw.try_lock_shared();
                         }();
                         check_acquired(b, (bool)h, true, sharedm, "try_lock_shared()");
-                        if (h) shared_lifecycle(h, b, op);
+                        if (h) shared_lifecycle(h, b, op, [&] { return static_cast<const W*>(G_aux<W>)->lock_shared(); });
                         else gsim::probe("try_lock_shared.null");
                     }
                     check_released(b, "destruction of a shared handle");
@@ -569,7 +616,7 @@ struct Exec {
                         }();
                         check_timed(t0, d, false, "try_lock_shared_for");
                         check_acquired(b, (bool)h, true, sharedm, "try_lock_shared_for()");
-                        if (h) shared_lifecycle(h, b, op);
+                        if (h) shared_lifecycle(h, b, op, [&] { return static_cast<const W*>(G_aux<W>)->lock_shared(); });
                         else gsim::probe("try_lock_shared_for.null");
                     }
                     check_released(b, "destruction of a shared handle");
@@ -587,7 +634,7 @@ struct Exec {
                         }();
                         check_timed(t0, d, true, "try_lock_shared_until");
                         check_acquired(b, (bool)h, true, sharedm, "try_lock_shared_until()");
-                        if (h) shared_lifecycle(h, b, op);
+                        if (h) shared_lifecycle(h, b, op, [&] { return static_cast<const W*>(G_aux<W>)->lock_shared(); });
                         else gsim::probe("try_lock_shared_until.null");
                     }
                     check_released(b, "destruction of a shared handle");
@@ -818,7 +865,7 @@ void generate(const char* mode)
             gsim::Op op;
             op.code = p[gsim::gen_int((int)p.size())];
             op.a = gsim::gen_int(4) == 0 ? 1 + gsim::gen_int(3) : 0;  // hold
-            op.b = gsim::gen_int(4);  // life cycle / cas expected
+            op.b = gsim::gen_int(5);  // life cycle / cas expected
             op.c = gsim::gen_int(3);  // duration index
             if (op.code == OP_STORE || op.code == OP_ASSIGN || op.code == OP_EXCHANGE ||
                 op.code == OP_CAS || (op.code == OP_MODIFY_DETACH && reg)) {
@@ -869,6 +916,7 @@ void run_wrapper()
     if (st.oracle_throw) gsim::enable_fault(gsim::F_THROW, 50 + gsim::knob("throw", 0, 2) * 100);
     gsim::set_rw_pref(gsim::knob("rw_pref", 0, 1));
     W* w = T::make(st.enabled);
+    G_aux<W> = T::make(st.enabled);
     // find the wrapped object
     if constexpr (has_lock<W>::value) {
         auto h = w->lock();
@@ -923,6 +971,8 @@ void run_wrapper()
             gsim::probe("lin.skipped_long");
     }
     delete w;
+    delete G_aux<W>;
+    G_aux<W> = nullptr;
     G = nullptr;
     Cell::tracked = nullptr;
 }
